@@ -118,7 +118,7 @@ def tie(rep, tier, rng, model_ok):
     rep.cov["exhaustive"] = True
 
 
-IPQ_MODEL = False
+IPQ_MODEL = True
 
 
 def stale_key_cases(rng, n):
